@@ -196,9 +196,9 @@ vf_gost_lps_abs(uint64_t out[8], const uint64_t in[8]) {
  * for EVERY function LPS, in particular the standard's, for which gost3411_2012_XSLP is
  * proved separately (jobs gost.XSLP.*). */
 #ifdef VF_GOST_LPS_ORACLE
-#define VF_LPS_MAX 32
+#define VF_LPS_MAX 64
 uint64_t vf_lps_in[VF_LPS_MAX][8];
-uint64_t vf_lps_out[VF_LPS_MAX][8];	/* never assigned: an arbitrary table */
+uint64_t vf_lps_out[VF_LPS_MAX][8];	/* filled with arbitrary values by the harness, then never assigned */
 size_t vf_lps_n;			/* applications by the library */
 size_t vf_lps_j;			/* applications by the specification */
 static inline void
